@@ -1393,6 +1393,9 @@ def compile_pattern(compiler, pattern):
         ]
         return asty.MatchSequence(value, patterns=patterns)
     elif is_unpack("iterable", value):
+        if value[1] == Symbol("_"):
+            # A wildcard: match the rest of the sequence without binding it.
+            return asty.MatchStar(value, name=None)
         return compiler.scope.assign(asty.MatchStar(value, name=mangle(value[1])))
 
     elif isinstance(value, Dict):
